@@ -88,3 +88,474 @@ Proof.
   - destruct r; [discriminate|]. apply u16_digits_lt; exact H0.
   - apply u16_digits_lt; exact H0.
 Qed.
+
+Lemma upd_last_ok f parts :
+  (forall p, ph_width (f p) = ph_width p) ->
+  Forall part_ok parts -> Forall part_ok (upd_last f parts).
+Proof.
+  intros Hf Hp. destruct parts as [|[s|p|] r]; cbn [upd_last]; try exact Hp.
+  inversion Hp as [|? ? H1 H2]; subst. constructor; [|exact H2].
+  cbn [part_ok] in *. rewrite Hf. exact H1.
+Qed.
+
+Ltac break_if H :=
+  repeat match type of H with context [if ?b then _ else _] => destruct b end.
+
+Ltac parts_ok_tac :=
+  repeat first
+    [ assumption
+    | exact I
+    | apply upd_last_ok; [intros; reflexivity|]
+    | apply Forall_cons
+    | progress cbn [part_ok ph_width] ].
+
+Lemma phase1_ok st c parts buf new push parts' buf' :
+  Forall part_ok parts ->
+  phase1 st c parts buf = Some (new, push, parts', buf') -> Forall part_ok parts'.
+Proof.
+  intros Hp H. unfold phase1, backtrack in H.
+  destruct st; break_if H; try discriminate; inversion H; subst; parts_ok_tac.
+Qed.
+
+Lemma phase2_ok old new parts buf parts' buf' :
+  Forall part_ok parts ->
+  phase2 old new parts buf = Some (parts', buf') -> Forall part_ok parts'.
+Proof.
+  intros Hp H. unfold phase2 in H.
+  destruct (nonempty buf); [|inversion H; subst; exact Hp].
+  destruct old, new; try (inversion H; subst; parts_ok_tac; fail);
+    destruct parts as [|[s|p|] r]; try (inversion H; subst; parts_ok_tac; fail).
+  all: try (destruct (parse_u16 buf) as [w|] eqn:Ew; [|discriminate];
+            inversion H; subst; inversion Hp as [|? ? H1 H2]; subst;
+            constructor; [cbn [part_ok set_width ph_width]; exact (parse_u16_lt _ _ Ew) | exact H2]).
+  all: inversion H; subst; inversion Hp as [|? ? H1 H2]; subst; constructor; [exact H1 | exact H2].
+Qed.
+
+Lemma tstep_ok s c s' :
+  Forall part_ok (p_parts s) -> tstep s c = SOk s' -> Forall part_ok (p_parts s').
+Proof.
+  intros Hp H. unfold tstep in H.
+  destruct (phase1 (p_state s) c (p_parts s) (p_buf s)) as [[[[new push] parts1] buf1]|] eqn:E1; [|discriminate].
+  destruct (phase2 (p_state s) new parts1 buf1) as [[parts2 buf2]|] eqn:E2; [|discriminate].
+  inversion H; subst. cbn [p_parts].
+  eapply phase2_ok; [|exact E2]. eapply phase1_ok; [exact Hp | exact E1].
+Qed.
+
+Lemma trun_ok cs : forall s s',
+  Forall part_ok (p_parts s) -> trun s cs = SOk s' -> Forall part_ok (p_parts s').
+Proof.
+  induction cs as [|c r IH]; intros s s' Hp H; cbn [trun] in H.
+  - inversion H; subst; exact Hp.
+  - destruct (tstep s c) as [s1|] eqn:E; [|discriminate].
+    eapply IH; [|exact H]. eapply tstep_ok; [exact Hp | exact E].
+Qed.
+
+Lemma Forall_rev_ok {A} (P : A -> Prop) l : Forall P l -> Forall P (rev l).
+Proof. intros H. apply Forall_forall. intros x Hx. apply in_rev in Hx. revert x Hx. apply Forall_forall. exact H. Qed.
+
+(** every width the parser stores came out of u16::from_str *)
+Lemma parse_parts_ok s ps : parse s = POk ps -> Forall part_ok ps.
+Proof.
+  unfold parse. destruct (trun pinit0 s) as [f|] eqn:E; [|discriminate].
+  intros H. inversion H; subst. apply trun_ok in E; [|constructor].
+  unfold tfinish. apply Forall_rev_ok.
+  destruct (p_state f); try exact E; destruct (nonempty (p_buf f)); try exact E;
+    (constructor; [exact I | exact E]).
+Qed.
+
+(** * the invariant holds initially and is preserved *)
+Lemma default_width : width_of default_chars = Ok 1.
+Proof. reflexivity. Qed.
+
+Lemma new_style_ok parts st :
+  Forall part_ok parts -> new_style parts = BOk st -> StyleOK st.
+Proof.
+  intros Hp H. unfold new_style in H. rewrite default_width in H. inversion H; subst.
+  unfold StyleOK; cbn [st_ticks st_chars st_cw st_parts].
+  repeat split; try (vm_compute; discriminate).
+  - repeat constructor.
+  - exact Hp.
+Qed.
+
+Lemma construct_ok c st : construct c = BOk st -> StyleOK st.
+Proof.
+  destruct c as [| |s]; cbn [construct].
+  - destruct (parse DEFAULT_BAR_TEMPLATE) as [ps|] eqn:E; [|discriminate].
+    apply new_style_ok. exact (parse_parts_ok _ _ E).
+  - destruct (parse DEFAULT_SPINNER_TEMPLATE) as [ps|] eqn:E; [|discriminate].
+    apply new_style_ok. exact (parse_parts_ok _ _ E).
+  - destruct (parse s) as [ps|] eqn:E; [|discriminate].
+    apply new_style_ok. exact (parse_parts_ok _ _ E).
+Qed.
+
+(* the two `unwrap`s on literal templates (style.rs:74, 79) and the `unwrap` of width() in
+   new() (style.rs:96) cannot fail: the constructors never panic *)
+Lemma construct_no_panic c s : construct c <> BPanic s.
+Proof.
+  destruct c as [| |t]; cbn [construct].
+  - vm_compute. discriminate.
+  - vm_compute. discriminate.
+  - destruct (parse t); [|discriminate]. unfold new_style. rewrite default_width. discriminate.
+Qed.
+
+Lemma nlen_map {A B} (f : A -> B) l : nlen (map f l) = nlen l.
+Proof. unfold nlen. rewrite map_length. reflexivity. Qed.
+
+Lemma bstep_ok st o st' : StyleOK st -> bstep st o = BOk st' -> StyleOK st'.
+Proof.
+  intros (Ht & Hc & Hw & Hf & Hp) H. destruct o as [s|l|cl|s|k|w]; cbn [bstep] in H.
+  - destruct (N.ltb_spec (nlen (map (fun c => [c]) s)) 2) as [|Hl]; [discriminate|].
+    inversion H; subst. repeat split; assumption.
+  - destruct (N.ltb_spec (nlen l) 2) as [|Hl]; [discriminate|].
+    inversion H; subst. repeat split; assumption.
+  - destruct (N.ltb_spec (nlen cl) 2) as [|Hl]; [discriminate|].
+    destruct (width_of cl) as [w|] eqn:E; [|discriminate].
+    destruct (N.eqb_spec w 0) as [|Hw0]; [discriminate|].
+    inversion H; subst. apply width_of_ok in E. destruct E as [_ E].
+    unfold StyleOK; cbn [st_ticks st_chars st_cw st_parts].
+    repeat split; try assumption. lia.
+  - destruct (parse s) as [ps|] eqn:E; [|discriminate].
+    inversion H; subst. unfold StyleOK; cbn [st_ticks st_chars st_cw st_parts].
+    repeat split; try assumption. exact (parse_parts_ok _ _ E).
+  - inversion H; subst. repeat split; assumption.
+  - inversion H; subst. repeat split; assumption.
+Qed.
+
+Lemma brun_idx_ok ops : forall i st j st',
+  StyleOK st -> brun_idx i st ops = (j, BOk st') -> StyleOK st'.
+Proof.
+  induction ops as [|o r IH]; intros i st j st' Hs H; cbn [brun_idx] in H.
+  - inversion H; subst; exact Hs.
+  - destruct (bstep st o) as [s1| |] eqn:E; try (inversion H; fail).
+    eapply IH; [|exact H]. eapply bstep_ok; [exact Hs | exact E].
+Qed.
+
+Theorem build_ok c ops st : build c ops = BOk st -> StyleOK st.
+Proof.
+  unfold build, build_idx. destruct (construct c) as [s0| |] eqn:E; cbn [snd]; try discriminate.
+  destruct (brun_idx 0 s0 ops) as [j r] eqn:Er. cbn [snd]. intros H; subst r.
+  eapply brun_idx_ok; [|exact Er]. exact (construct_ok _ _ E).
+Qed.
+
+(** * the invariant implies every guard *)
+Lemma nth_error_some {A} (l : list A) (i : N) :
+  i < nlen l -> exists x, nth_error l (N.to_nat i) = Some x.
+Proof.
+  unfold nlen. intros H. destruct (nth_error l (N.to_nat i)) as [x|] eqn:E; [exists x; reflexivity|].
+  apply nth_error_None in E. lia.
+Qed.
+
+Lemma get_tick_str_ok ticks idx : 2 <= nlen ticks -> exists s, get_tick_str ticks idx = Ok s.
+Proof.
+  intros H. unfold get_tick_str.
+  destruct (N.eqb_spec (nlen ticks) 0); [lia|].
+  destruct (N.eqb_spec (nlen ticks - 1) 0); [lia|].
+  assert (Hi : idx mod (nlen ticks - 1) < nlen ticks).
+  { pose proof (N.mod_lt idx (nlen ticks - 1)). lia. }
+  destruct (nth_error_some ticks _ Hi) as [x Hx]. rewrite Hx. exists x; reflexivity.
+Qed.
+
+Lemma get_final_tick_str_ok ticks : 2 <= nlen ticks -> exists s, get_final_tick_str ticks = Ok s.
+Proof.
+  intros H. unfold get_final_tick_str.
+  destruct (N.eqb_spec (nlen ticks) 0); [lia|].
+  assert (Hi : nlen ticks - 1 < nlen ticks) by lia.
+  destruct (nth_error_some ticks _ Hi) as [x Hx]. rewrite Hx. exists x; reflexivity.
+Qed.
+
+Lemma current_tick_str_ok st sn : StyleOK st -> exists s, current_tick_str st sn = Ok s.
+Proof.
+  intros (Ht & _). unfold current_tick_str. destruct (sn_finished sn).
+  - apply get_final_tick_str_ok; exact Ht.
+  - apply get_tick_str_ok; exact Ht.
+Qed.
+
+Lemma format_bar_ok st O width : StyleOK st -> format_bar st O width = Ok tt.
+Proof.
+  intros (_ & Hc & Hw & _). unfold format_bar, bar_cur.
+  destruct (N.eqb_spec (st_cw st) 0); [lia|].
+  destruct (N.eqb_spec (nlen (st_chars st)) 0); [lia|].
+  rewrite andb_false_r.
+  destruct (fb_head (o_bar O (width / st_cw st))); [|reflexivity].
+  destruct (N.leb_spec (nlen (st_chars st) - 2) 1).
+  - destruct (N.ltb_spec 1 (nlen (st_chars st))); [reflexivity | lia].
+  - destruct (N.ltb_spec (nlen (st_chars st) - 2 - fb_k (o_bar O (width / st_cw st))) (nlen (st_chars st)));
+      [reflexivity | lia].
+Qed.
+
+Lemma padded_sites_ok t width a trunc : mt_ok t -> padded_sites t width a trunc = Ok tt.
+Proof.
+  unfold mt_ok, padded_sites. intros H.
+  destruct ((0 <? mt_cols t - width) && negb trunc); [reflexivity|].
+  destruct (0 <? mt_cols t - width); [|reflexivity].
+  destruct a; try reflexivity.
+  - destruct (N.ltb_spec (mt_len t) (mt_cols t - width)); [lia | reflexivity].
+  - destruct (N.ltb_spec (mt_len t) (mt_cols t - width - (mt_cols t - width) / 2)); [lia | reflexivity].
+Qed.
+
+Lemma pad_tail (buf : mtext) (p : ph) (nw : option wide) :
+  mt_ok buf ->
+  oseq (match ph_width p with
+       | Some w => padded_sites buf w (ph_align p) (ph_trunc p)
+       | None => Ok tt
+       end) (Ok nw) = Ok nw.
+Proof.
+  intros H. destruct (ph_width p); [rewrite padded_sites_ok by exact H|]; reflexivity.
+Qed.
+
+Lemma placeholder_sites_ok st sn O i p :
+  StyleOK st -> snap_ok sn -> oracles_ok O -> part_ok (PPh p) ->
+  exists nw, placeholder_sites st sn O i p = Ok nw.
+Proof.
+  intros Hs [Hm Hpre] HO Hp. unfold placeholder_sites.
+  pose proof (HO i) as Hi.
+  destruct (existsb (list_eqb N.eqb (ph_key p)) (st_keys st)).
+  { eexists. apply pad_tail. exact Hi. }
+  destruct (key_is (ph_key p) KeyNames.wide_bar).
+  { eexists. apply pad_tail. exact Hi. }
+  destruct (key_is (ph_key p) KeyNames.bar).
+  { rewrite format_bar_ok by exact Hs. cbn [oseq]. eexists. apply pad_tail. exact Hi. }
+  destruct (key_is (ph_key p) KeyNames.spinner).
+  { destruct (current_tick_str_ok st sn Hs) as [s Es]. rewrite Es. eexists. apply pad_tail. exact Hi. }
+  destruct (key_is (ph_key p) KeyNames.wide_msg).
+  { eexists. apply pad_tail. exact Hi. }
+  destruct (key_is (ph_key p) KeyNames.msg).
+  { eexists. apply pad_tail. exact Hm. }
+  destruct (key_is (ph_key p) KeyNames.prefix).
+  { eexists. apply pad_tail. exact Hpre. }
+  destruct (key_is (ph_key p) KeyNames.per_sec).
+  { cbn [part_ok] in Hp. destruct (ph_width p) as [w|] eqn:Ew.
+    - destruct (N.leb_spec U16 w); [lia|]. eexists.
+      rewrite padded_sites_ok by exact Hi. reflexivity.
+    - eexists. reflexivity. }
+  eexists. apply pad_tail. exact Hi.
+Qed.
+
+Lemma push_line_sites_ok st sn O i wd tw :
+  StyleOK st -> snap_ok sn -> push_line_sites st sn O i wd tw = Ok tt.
+Proof.
+  intros Hs [Hm _]. unfold push_line_sites. destruct wd as [[|a]|]; [| |reflexivity].
+  - apply format_bar_ok; exact Hs.
+  - apply padded_sites_ok; exact Hm.
+Qed.
+
+Lemma walk_ok st sn O tw ps : forall i wd,
+  StyleOK st -> snap_ok sn -> oracles_ok O -> Forall part_ok ps ->
+  exists wd', walk st sn O tw i ps wd = Ok wd'.
+Proof.
+  induction ps as [|p r IH]; intros i wd Hs Hn HO Hp; cbn [walk].
+  - eexists; reflexivity.
+  - inversion Hp as [|? ? Hp1 Hpr]; subst. destruct p as [s|q|].
+    + apply IH; assumption.
+    + destruct (placeholder_sites_ok st sn O i q Hs Hn HO Hp1) as [nw E]. rewrite E.
+      apply IH; assumption.
+    + rewrite push_line_sites_ok by assumption. cbn [oseq]. apply IH; assumption.
+Qed.
+
+(** format_state never reaches a panic site for a style that satisfies the invariant *)
+Theorem render_ok st sn tw O :
+  StyleOK st -> snap_ok sn -> oracles_ok O -> render_outcome st sn tw O = Ok tt.
+Proof.
+  intros Hs Hn HO. unfold render_outcome.
+  destruct Hs as (H1 & H2 & H3 & H4 & H5).
+  assert (Hs : StyleOK st) by (repeat split; assumption).
+  destruct (walk_ok st sn O tw (st_parts st) 0%nat None Hs Hn HO H5) as [wd E]. rewrite E.
+  destruct (o_cur_nonempty O); [|reflexivity].
+  apply push_line_sites_ok; assumption.
+Qed.
+
+(** * one frame on the terminal *)
+Lemma wrapped_height_fill cols tw :
+  0 < tw -> wrapped_height cols tw * tw <= cols + tw.
+Proof.
+  intros Htw. unfold wrapped_height. destruct (N.eqb_spec tw 0); [lia|].
+  pose proof (N.div_mod (cols + tw - 1) tw ltac:(lia)) as Hd.
+  pose proof (N.mod_lt (cols + tw - 1) tw ltac:(lia)) as Hm.
+  destruct (N.max_spec 1 ((cols + tw - 1) / tw)) as [[_ ->]|[_ ->]]; nia.
+Qed.
+
+Lemma paint_ok ls : forall idx total tw th real,
+  tw < U16 -> th < U16 -> real <= th ->
+  exists r, paint ls idx total tw th real = Ok r /\ r <= th.
+Proof.
+  induction ls as [|c r IH]; intros idx total tw th real Htw Hth Hreal; cbn [paint].
+  - exists real. split; [reflexivity | exact Hreal].
+  - unfold sat_addu.
+    destruct (N.ltb_spec th (N.min USIZE_MAX (real + wrapped_height c tw))) as [|Hfit].
+    { exists real. split; [reflexivity | exact Hreal]. }
+    assert (Hsum : real + wrapped_height c tw <= th).
+    { unfold USIZE_MAX, U64MAX, U16 in *. lia. }
+    destruct (N.ltb_spec USIZE_MAX (real + wrapped_height c tw)) as [Hov|_].
+    { unfold USIZE_MAX, U64MAX, U16 in *. lia. }
+    assert (Hfill : (ISIZE_MAX <? sat_mulu (wrapped_height c tw) tw - c) = false).
+    { apply N.ltb_ge. unfold sat_mulu.
+      destruct (N.eq_dec tw 0) as [->|Hnz].
+      - rewrite N.mul_0_r. unfold ISIZE_MAX. lia.
+      - pose proof (wrapped_height_fill c tw ltac:(lia)).
+        unfold ISIZE_MAX, USIZE_MAX, U64MAX, U16 in *. lia. }
+    rewrite Hfill, andb_false_r.
+    apply IH; assumption.
+Qed.
+
+(** draw_to_term never reaches a panic site: every terminal size a u16 pair can hold
+    (width 0 included), every list of line widths, every previous line count that leaves
+    room for one more screen *)
+Theorem frame_ok ls tw th n bottom :
+  tw < U16 -> th < U16 -> n + U16 <= USIZE_MAX ->
+  exists n', frame_outcome ls tw th n bottom = Ok n' /\ n' <= th + (if bottom then n else 0).
+Proof.
+  intros Htw Hth Hn. unfold frame_outcome.
+  destruct (paint_ok ls 0 (nlen ls) tw th 0 Htw Hth ltac:(lia)) as [r [E Hr]]. rewrite E.
+  set (shift := if bottom && (visual_line_count ls tw <? n) then n - visual_line_count ls tw else 0).
+  assert (Hshift : shift <= (if bottom then n else 0)).
+  { subst shift. destruct bottom; cbn [andb]; [|lia].
+    destruct (visual_line_count ls tw <? n); lia. }
+  destruct (N.ltb_spec USIZE_MAX (r + shift)) as [Hov|_].
+  { destruct bottom; unfold USIZE_MAX, U64MAX, U16 in *; lia. }
+  exists (r + shift). split; [reflexivity | lia].
+Qed.
+
+Theorem draw_ok st sn tw th n bottom O :
+  StyleOK st -> snap_ok sn -> oracles_ok O ->
+  tw < U16 -> th < U16 -> n + U16 <= USIZE_MAX ->
+  exists n', draw_outcome st sn tw th n bottom O = Ok n'.
+Proof.
+  intros Hs Hsn HO Htw Hth Hn. unfold draw_outcome. rewrite render_ok by assumption. cbn [oseq].
+  destruct (frame_ok (o_lines O) tw th n bottom Htw Hth Hn) as [n' [E _]]. exists n'. exact E.
+Qed.
+
+(** * the main statements *)
+Theorem accepted_renders c ops st :
+  build c ops = BOk st ->
+  forall sn tw O, snap_ok sn -> oracles_ok O -> render_outcome st sn tw O = Ok tt.
+Proof. intros Hb sn tw O Hsn HO. apply render_ok; [exact (build_ok _ _ _ Hb) | exact Hsn | exact HO]. Qed.
+
+Theorem accepted_draws c ops st :
+  build c ops = BOk st ->
+  forall sn tw th n bottom O, snap_ok sn -> oracles_ok O ->
+    tw < U16 -> th < U16 -> n + U16 <= USIZE_MAX ->
+    exists n', draw_outcome st sn tw th n bottom O = Ok n'.
+Proof.
+  intros Hb sn tw th n bottom O Hsn HO Htw Hth Hn.
+  apply draw_ok; try assumption. exact (build_ok _ _ _ Hb).
+Qed.
+
+(** the public ProgressStyle::get_tick_str / get_final_tick_str on an accepted style: never a
+    panic, and the string is the one the documentation names (index tick mod (n-1), resp. the
+    last string) *)
+Theorem accepted_ticks c ops st :
+  build c ops = BOk st ->
+  (forall idx, exists s, get_tick_str (st_ticks st) idx = Ok s
+      /\ nth_error (st_ticks st) (N.to_nat (idx mod (nlen (st_ticks st) - 1))) = Some s)
+  /\ (exists s, get_final_tick_str (st_ticks st) = Ok s /\ last (st_ticks st) [] = s).
+Proof.
+  intros Hb. pose proof (build_ok _ _ _ Hb) as (Ht & _). split.
+  - intros idx. destruct (get_tick_str_ok (st_ticks st) idx Ht) as [s E]. exists s. split; [exact E|].
+    unfold get_tick_str in E.
+    destruct (nlen (st_ticks st) =? 0); [discriminate|].
+    destruct (nlen (st_ticks st) - 1 =? 0); [discriminate|].
+    destruct (nth_error (st_ticks st) (N.to_nat (idx mod (nlen (st_ticks st) - 1)))); inversion E; reflexivity.
+  - destruct (get_final_tick_str_ok (st_ticks st) Ht) as [s E]. exists s. split; [exact E|].
+    unfold get_final_tick_str in E.
+    destruct (nlen (st_ticks st) =? 0); [discriminate|].
+    destruct (nth_error (st_ticks st) (N.to_nat (nlen (st_ticks st) - 1))) as [x|] eqn:En; inversion E; subst x.
+    clear E Ht Hb. unfold nlen in En. revert En.
+    generalize (st_ticks st) as l. intros l.
+    replace (N.to_nat (N.of_nat (length l) - 1)) with (length l - 1)%nat by lia.
+    induction l as [|a r IH]; cbn [length]; intros H.
+    + cbn in H. discriminate.
+    + destruct r as [|b r'].
+      * cbn in H. inversion H; reflexivity.
+      * cbn [last]. apply IH. cbn [length] in *.
+        replace (S (S (length r')) - 1)%nat with (S (length r')) in H by lia. cbn [nth_error] in H.
+        replace (S (length r') - 1)%nat with (length r') by lia. exact H.
+Qed.
+
+(** * rejections happen in the builder call *)
+Theorem rejects_early st :
+  (forall s, nlen s < 2 -> bstep st (OTickChars s) = BPanic SITE_TICK_CHARS)
+  /\ (forall l, nlen l < 2 -> bstep st (OTickStrings l) = BPanic SITE_TICK_STRINGS)
+  /\ (forall cl, nlen cl < 2 -> bstep st (OProgressChars cl) = BPanic SITE_PCHARS_LT2)
+  /\ (forall cl, 2 <= nlen cl -> (exists a b, In a cl /\ In b cl /\ cl_w a <> cl_w b) ->
+        bstep st (OProgressChars cl) = BPanic SITE_WIDTH_UNEQUAL)
+  /\ (forall cl, 2 <= nlen cl -> Forall (fun c => cl_w c = 0) cl ->
+        bstep st (OProgressChars cl) = BPanic SITE_PCHARS_ZERO).
+Proof.
+  repeat split.
+  - intros s H. cbn [bstep]. rewrite nlen_map. destruct (N.ltb_spec (nlen s) 2); [reflexivity | lia].
+  - intros l H. cbn [bstep]. destruct (N.ltb_spec (nlen l) 2); [reflexivity | lia].
+  - intros cl H. cbn [bstep]. destruct (N.ltb_spec (nlen cl) 2); [reflexivity | lia].
+  - intros cl H (a & b & Ha & Hb & Hab). cbn [bstep].
+    destruct (N.ltb_spec (nlen cl) 2); [lia|].
+    destruct (width_of cl) as [w|s] eqn:E.
+    + apply width_of_ok in E. destruct E as [_ E]. rewrite Forall_forall in E.
+      exfalso. apply Hab. rewrite (E a Ha), (E b Hb). reflexivity.
+    + apply width_of_panic in E. destruct E as [[E _]|[E _]]; [|rewrite E; reflexivity].
+      subst cl. destruct Ha.
+  - intros cl H Hz. cbn [bstep].
+    destruct (N.ltb_spec (nlen cl) 2); [lia|].
+    assert (E : width_of cl = Ok 0).
+    { apply width_of_ok. split; [|exact Hz]. intros ->. unfold nlen in H. cbn in H. lia. }
+    rewrite E. reflexivity.
+Qed.
+
+(** the builder accepts exactly what the documentation allows *)
+Theorem bstep_accepts st o : (exists st', bstep st o = BOk st') <-> accepts o.
+Proof.
+  destruct o as [s|l|cl|s|k|w]; cbn [bstep accepts].
+  - rewrite nlen_map. destruct (N.ltb_spec (nlen s) 2) as [Hl|Hl]; split.
+    + intros [? Hx]; discriminate. + lia. + lia. + intros _. eexists; reflexivity.
+  - destruct (N.ltb_spec (nlen l) 2) as [Hl|Hl]; split.
+    + intros [? Hx]; discriminate. + lia. + lia. + intros _. eexists; reflexivity.
+  - destruct (N.ltb_spec (nlen cl) 2) as [Hl|Hl]; split.
+    + intros [? Hx]; discriminate.
+    + intros [H _]. lia.
+    + destruct (width_of cl) as [w|s] eqn:E; [|intros [? Hx]; discriminate].
+      destruct (N.eqb_spec w 0); [intros [? Hx]; discriminate|]. intros _.
+      split; [exact Hl|]. exists w. split; [lia|]. apply width_of_ok in E. exact (proj2 E).
+    + intros [_ (w & Hw & Hf)].
+      assert (E : width_of cl = Ok w).
+      { apply width_of_ok. split; [|exact Hf]. intros ->. unfold nlen in Hl. cbn in Hl. lia. }
+      rewrite E. destruct (N.eqb_spec w 0); [lia|]. eexists; reflexivity.
+  - destruct (parse s) as [ps|t c]; split.
+    + intros _. exists ps; reflexivity. + intros _. eexists; reflexivity.
+    + intros [? Hx]; discriminate. + intros [? Hx]; discriminate.
+  - split; [intros _; exact I | intros _; eexists; reflexivity].
+  - split; [intros _; exact I | intros _; eexists; reflexivity].
+Qed.
+
+(** what is not accepted is refused at once: a panic at one of the five builder sites, or
+    Err(TemplateError) for a template *)
+Definition builder_site (s : N) : Prop :=
+  s = SITE_WIDTH_UNEQUAL \/ s = SITE_TICK_CHARS \/ s = SITE_TICK_STRINGS
+  \/ s = SITE_PCHARS_LT2 \/ s = SITE_PCHARS_ZERO.
+
+Theorem bstep_rejects st o :
+  ~ accepts o ->
+  match o with
+  | OTemplate _ => exists t c, bstep st o = BErr t c
+  | _ => exists s, bstep st o = BPanic s /\ builder_site s
+  end.
+Proof.
+  intros Hn. pose proof (bstep_accepts st o) as Ha. unfold builder_site.
+  destruct o as [s|l|cl|s|k|w]; cbn [bstep accepts] in *.
+  - rewrite nlen_map in *. destruct (N.ltb_spec (nlen s) 2).
+    + eexists; split; [reflexivity | tauto].
+    + exfalso. apply Hn. lia.
+  - destruct (N.ltb_spec (nlen l) 2).
+    + eexists; split; [reflexivity | tauto].
+    + exfalso. apply Hn. lia.
+  - destruct (N.ltb_spec (nlen cl) 2) as [Hl|Hl].
+    + eexists; split; [reflexivity | tauto].
+    + destruct (width_of cl) as [w|s] eqn:E.
+      * destruct (N.eqb_spec w 0).
+        -- eexists; split; [reflexivity | tauto].
+        -- exfalso. apply Hn. apply Ha. eexists; reflexivity.
+      * exists s. split; [reflexivity|]. apply width_of_panic in E.
+        destruct E as [[E _]|[E _]]; [|tauto]. subst cl. unfold nlen in Hl. cbn in Hl. lia.
+  - destruct (parse s) as [ps|t c].
+    + exfalso. apply Hn. exists ps; reflexivity.
+    + exists t, c; reflexivity.
+  - exfalso. apply Hn. exact I.
+  - exfalso. apply Hn. exact I.
+Qed.
